@@ -37,6 +37,8 @@ def simulate(choices, main, strategy=("rtb",), netcfg=None, trace_files=None, tr
     sim = core.Sim(choices, strategy, step_cap=step_cap, keep_log=keep_log)
     sim.drift = drift
     k = net.Kernel(sim, netcfg)
+    if setup is not None:
+        setup(sim, k)
     if trace_files:
         trace.enable(sim, trace_files, trace_funcs)
     out = {"kind": "ok"}
